@@ -500,6 +500,16 @@ def search_for_paths(logger: ConsolePrinter, processor: EYAMLProcessor,
         for key, val in pool:
             tmp_path = build_path + YAMLPath.escape_path_section(key, pathsep)
 
+            # The key itself may be an Anchor or Alias.
+            key_anchor_matched = Searches.search_anchor(
+                key, terms, seen_anchors, search_anchors=search_anchors,
+                include_aliases=include_key_aliases)
+            logger.debug(
+                ("yaml_paths::search_for_paths<dict>:"
+                 + "KEY anchor search, {}:  {}.")
+                .format(key, key_anchor_matched)
+            )
+
             # Search the value anchor to have it on record, in case the key
             # anchor match would otherwise block the value anchor from
             # appearing in seen_anchors (which is important).
@@ -512,19 +522,16 @@ def search_for_paths(logger: ConsolePrinter, processor: EYAMLProcessor,
                 .format(val_anchor_matched)
             )
 
+            # Unless the caller wants them, aliased keys are discarded along
+            # with their child nodes (just as yield_children does).
+            if (not include_key_aliases
+                    and key_anchor_matched in [
+                        AnchorMatches.UNSEARCHABLE_ALIAS,
+                        AnchorMatches.ALIAS_EXCLUDED]):
+                continue
+
             # Search the key when the caller wishes it.
             if search_keys:
-                # The key itself may be an Anchor or Alias.  Search it when the
-                # caller wishes.
-                key_anchor_matched = Searches.search_anchor(
-                    key, terms, seen_anchors, search_anchors=search_anchors,
-                    include_aliases=include_key_aliases)
-                logger.debug(
-                    ("yaml_paths::search_for_paths<dict>:"
-                     + "KEY anchor search, {}:  {}.")
-                    .format(key, key_anchor_matched)
-                )
-
                 if key_anchor_matched in [AnchorMatches.MATCH,
                                           AnchorMatches.ALIAS_INCLUDED]:
                     logger.debug(
